@@ -11,15 +11,23 @@
 //!    nested 0-3 deep, badly laid out and surrounded by badly laid out code; `skip::macros`,
 //!    `skip_macro_invocations`, `skip::attributes`; out-of-line modules; whole-file opt-outs in every
 //!    emit mode (decision table of the model vs real runs).
+//!    Skip-marked items and statements directly inside `macro_rules!` bodies (the second reader of the
+//!    skipped ranges: `MacroBranch::rewrite` re-indents every line outside a range), formatted twice;
+//!    the correspondence `skip.mbody` of that re-indentation; `skip::macros` at three nesting levels;
+//!    byte-exactness of opted-out files with BOM / CRLF / no final newline in every emit mode.
 //! 3. enumerated probes of inputs known to be dirty on the pinned tree.
 //!
-//! "The node" of a skip attribute, for the oracle: the source text from the first token after the
+//! "The node" of a skip attribute, for the oracle: for items and statements the source text from the
+//! node's first outer attribute or doc comment (`full`; `visit_item` / `visit_stmt` copy that span) and,
+//! for every node kind, the source text from the first token after the
 //! node's outer attributes to the node's last token (items: through the closing brace or `;`; a
 //! statement: through its `;`; a field, variant or match arm: without the separating comma, which is
 //! list punctuation and is normalised; an expression: the expression).  It starts and ends with a
 //! non-blank character (the code pushes `snippet.trim()`, `pushSkipped_untrimmed_counterexample`), is
 //! LF-only and carries an identifier that occurs nowhere else in the program, so "occurs exactly
-//! once" is meaningful.  The attribute itself is not part of the node.
+//! once" is meaningful.  For impl / trait items, fields, variants, arms and expressions the attributes
+//! are not part of the node (tests/target/issue-4398.rs pins that the attributes of a skipped impl item
+//! are laid out by the missing-text path).
 use std::path::{Path, PathBuf};
 use std::process::Command;
 use std::time::Duration;
@@ -2485,6 +2493,7 @@ pub fn run(tier: &str, seed: u64, out: &Path) -> i32 {
     if want("scoped") { part_e2e_scoped(&mut o, &mut rng.fork(), thorough); } else { rng.fork(); }
     if want("files") { part_files(&mut o, &mut rng.fork(), thorough, out); } else { rng.fork(); }
     if want("probes") { part_probes(&mut o, out); }
+    o.notes.push("items and statements: the text from the first outer attribute / doc comment of the skipped node to its last token must occur exactly once (visit_item and visit_stmt copy that span as it is written); skip-marked nodes directly inside macro_rules! bodies are formatted twice and must survive both passes; generated are only nodes that the body formatter's top-level visitor reaches, and statements in macro bodies carry all their attributes on the first line (probes C04-macro-body-nested-visitor, C04-macro-body-stmt-attrs)".into());
     o.notes.push("the node of a skip attribute = source text from the first token after the node's outer attributes to its last token; separating commas of fields / variants / arms / arguments are list punctuation and not part of it; every node text carries an identifier that occurs nowhere else, so the oracle is: the text occurs exactly once in the output, after the preceding neighbour's identifier and before the following one's".into());
     o.notes.push("not generated, by construction of rustc's AST: an attribute written before `a = b` or `a + b` belongs to the leftmost operand only (`#[rustfmt::skip] x  =  1+2 ;` is reformatted except for `x`); `::rustfmt::skip` (leading `::`) is not a spelling the code or the property names (model and code agree: not accepted)".into());
     o.notes.push("outputs are compared modulo line endings when newline_style=Windows (whole-text conversion after formatting, C08); node texts are LF-only; the CRLF cases are the enumerated probes C04-crlf-node and C04-stdin-skip-crlf".into());
